@@ -153,7 +153,7 @@ PROPS = {
     "C05": dict(
         theorems=["HC.C05.nodes_eq_ref", "HC.C05.batch_roots", "HC.C05.roots_determined", "HC.C05.commit_keeps", "HC.C05.treeOK_empty",
                   "HC.C05.batch_independent", "HC.C05.root_hash_and_signature", "HC.C05.signature_verifies",
-                  "HC.C05.rep_tree", "HC.C05.history_tree", "HC.C05.recovered_tree"],
+                  "HC.C05.rep_tree", "HC.C05.history_tree", "HC.C05.recovered_tree", "HC.C05.replica_tree_is_reference"],
         bridge_modules=["HC.Bridge.Stores"], bridging=["HC.Bridge.Stores.hash_scheme", "HC.Bridge.Stores.tree_nodes"],
         runs=_c05_runs,
         partial="proved for every crypto record, block list and split into appends: created nodes = reference nodes, roots = reference roots, root hash and signature as prescribed. On the model of the whole crate: after any history with reopen steps and after crash recovery the roots, length, byte length and every node lookup are the reference ones (history_tree, recovered_tree). 'Proofs carry persisted nodes' and the stored signature after reopen are validated by the run, which compares the crate with the Lean reference AND with a third reference in the harness (blake2 / ed25519-dalek called directly).",
